@@ -101,8 +101,22 @@ _ADDED = {
     'C16': 'Every file-system step is also made to FAIL; a reduced exploration under python -O; all sequences of 2..3 (thorough 4) real interpreter processes in which a later one runs with -W error.',
     'C18': 'Truth-valued sizes (found F12); ONE pattern object whose fields are fixed, relaxed to Any() and fixed again one by one, filter() compared with and without the pre-filter after every change; two threads deriving expressions under all schedules with <=1 (thorough 2) preemptions.',
 }
+_ADDED_M = {
+    'C04': 'A rejection must be a PacketError (and None with silent=True): any other exception class is a violation.',
+    'C06': 'Delimiter expressions compiled with flags (re.I, re.S, re.M).',
+    'C08': 'Until-conditions whose result is a truth value rather than a bool.',
+    'C09': 'Every constant slice with a step (incl. negative and zero).',
+    'C10': 'Positioning targets that are described (Auto) fields: parsing follows the value found in the data.',
+    'C13': 'Byte-string values that are mutable buffers (bytearray).',
+    'C16': 'The crash / failing-step exploration also covers a declaration with non-ascii field names.',
+    'C17': 'Tracked values that are bytearrays.',
+    'C18': 'The candidates of filter() also as a one-shot iterator.',
+}
+for _k, _v in _ADDED_M.items():
+    _ADDED[_k] = (_ADDED.get(_k, '') + ' ' + _v).strip()
 for _k, _v in _ADDED.items():
     CHECKS[_k]['text'] += ' ' + _v
+CHECKS['C11'] = dict(CHECKS['C11'], text=CHECKS['C11']['text'] + ' Histories with append / extend are replayed through the real append() and extend() (list and one-shot generator) and must end in the same buffer.')
 CHECKS['C16']['note'] += ' Each of the two processes makes ONE definition (a defect that needs several definitions in one process while another writes is left to the sequential histories of C15, see seeded C16l).'
 
 NOT_APPLICABLE = {}
